@@ -31,6 +31,15 @@ EID = z3.Function('eval_id', Pt, z3.IntSort())          # ghost evaluation id
 SQ = 'nautilus.sampler.Sampler.'
 
 
+born = z3.Function('born', Bound, z3.IntSort())   # ghost allocation time
+
+
+def clock(st):
+    if 'clock' not in st.ghost:
+        st.ghost['clock'] = z3.Int(uid('clock'))
+    return st.ghost['clock']
+
+
 def sstate(st):
     if 'sstate' not in st.ghost:
         st.ghost['sstate'] = z3.Array(uid('sstate'), Bound, z3.IntSort())
@@ -97,6 +106,7 @@ def make_sampler(ex, st, explored=None):
     f['n_update_iter'] = mint('n_update_iter')
     f['n_like_iter'] = mint('n_like_iter')
     sstate(st)
+    clock(st)
     return st.alloc(ObjRec('Sampler', f), 'self')
 
 
@@ -175,7 +185,7 @@ def inv_P3(V):
     expl = V.bool('self.explored')
     return [('P3_transfer_candidates', z3.Implies(
         z3.Not(expl), z3.And(p3_facts(bounds, pt, sh), ll.n == pt.n,
-                             z3.Implies(bounds.n == 0, pt.n == 0))))]
+                             z3.Implies(bounds.n <= 1, pt.n == 0))))]
 
 
 def inv_bounds(V):
@@ -183,8 +193,11 @@ def inv_bounds(V):
     index 0 is the unit cube, the others NautilusBounds"""
     b = S(V, 'bounds')
     i, j = A.qi('i'), A.qi('j')
-    return [('B_distinct', z3.ForAll([i, j], z3.Implies(
-        z3.And(i >= 0, i < j, j < b.n), b.at(i) != b.at(j)))),
+    ck = clock(V.st)
+    return [('B_distinct', z3.And(
+        z3.ForAll([i, j], z3.Implies(
+            z3.And(i >= 0, i < j, j < b.n), born(b.at(i)) < born(b.at(j)))),
+        A.forall_idx(b.n, lambda t: born(b.at(t)) < ck))),
         ('B_classes', z3.ForAll([i], z3.Implies(
             z3.And(i >= 0, i < b.n), isNB(b.at(i)) == (i > 0))))]
 
@@ -250,3 +263,161 @@ def install_bound_api(reg, cx):
         # np.zeros((n, n_dim)): n rows of the point sort
         return st.alloc(A.fresh_arr(st, 'Pt', 'zeros_pts', n=I(shp[0])), 'z')
     reg.zeros2_hook = zeros2
+
+
+# ---------------------------------------------------------------------------
+# blobs / user function consistency
+
+HAS_BLOBS = z3.Bool('user_likelihood_returns_blobs')
+
+
+def inv_blobs(V):
+    """the user's likelihood either always or never returns blobs (assumption
+    on the user function); blobs exist as soon as anything was evaluated"""
+    bn, bl = blobs_of(V)
+    btn, blt = blobs_of(V, 'blobs_t')
+    dt = V.raw('self.blobs_dtype')
+    dtn = dt.isnone if isinstance(dt, MaybeNone) else z3.BoolVal(dt is None)
+    nb = S(V, 'bounds').n
+    pts = S(V, 'points')
+    out = [('blobs_iff_user_returns_blobs', z3.And(
+        z3.Implies(z3.Not(bn), HAS_BLOBS),
+        z3.Implies(z3.And(bn, HAS_BLOBS), z3.And(
+            V.int('self.n_like') == 0, nb <= 1,
+            A.forall_idx(pts.n, lambda i: pts.alen(i) == 0))),
+        z3.Implies(z3.Not(bn), z3.Not(dtn)),
+        z3.Implies(z3.Not(bn), nb >= 1),
+        z3.Implies(z3.Not(btn), z3.Not(bn)),
+        z3.Implies(z3.And(btn, z3.Not(bn), z3.Not(V.bool('self.explored'))),
+                   S(V, 'points_t').n == 0)))]
+    if blt is not None:
+        out.append(('blobs_t_aligned', z3.Implies(
+            z3.And(z3.Not(btn), z3.Not(V.bool('self.explored'))),
+            blt.n == S(V, 'points_t').n)))
+    if bl is not None:
+        i = A.qi('i')
+        out.append(('blobs_rows_aligned', z3.Implies(z3.Not(bn), z3.ForAll(
+            [i], z3.Implies(z3.And(i >= 0, i < nb),
+                            bl.alen(i) == pts.alen(i))))))
+    return out
+
+
+def inv_rows_aligned(V):
+    pts, ll = S(V, 'points'), S(V, 'log_l')
+    return [('log_l_rows_aligned', A.forall_idx(
+        pts.n, lambda i: ll.alen(i) == pts.alen(i)))]
+
+
+def inv_config(V):
+    return [('config', z3.And(V.int('self.n_batch') >= 1,
+                              V.int('self.n_live') >= 1,
+                              V.int('self.n_points_min') >= 1,
+                              V.int('self.n_like') >= 0))]
+
+
+def InvAll(V):
+    return (InvP(V) + inv_blobs(V) + inv_rows_aligned(V) + inv_config(V))
+
+
+def install_sampler_hooks(reg):
+    """list-valued fields assigned from a literal list of arrays become the
+    list-of-arrays abstraction"""
+    def hook(ex, st, o, attr, v, node):
+        if attr in ('points', 'log_l', 'blobs') and isinstance(v, Ref) and \
+                isinstance(st.cell(v), PyList):
+            from pyvc.npmodel import resolve
+            items = [ex.deref(st, resolve(ex, st, x))
+                     for x in st.cell(v).items]
+            if items and all(isinstance(x, Arr) for x in items):
+                k = items[0].k
+
+                def alen(i, items=items):
+                    r = items[-1].n
+                    for j in range(len(items) - 2, -1, -1):
+                        r = z3.If(i == j, items[j].n, r)
+                    return r
+
+                def at(i, jj, items=items):
+                    r = items[-1].at(jj)
+                    for j in range(len(items) - 2, -1, -1):
+                        r = z3.If(i == j, items[j].at(jj), r)
+                    return r
+                st.setfield(o, attr, st.alloc(LArr(len(items), alen, at, k),
+                                              attr))
+                return True
+        return False
+    reg.setattr_hook = hook
+
+
+# ---------------------------------------------------------------------------
+# C02: per-shell statistics are the estimators of the stored samples
+
+from pyvc.lib import lse_term as lse_of  # noqa: E402
+
+
+def inv_exp_arrays(V):
+    nb = S(V, 'bounds').n
+    expl = V.bool('self.explored')
+    pts = S(V, 'points')
+    ee, ne, ns = S(V, 'shell_end_exp'), S(V, 'shell_n_sample_exp'), \
+        S(V, 'shell_n_sample')
+    return [('S3_exploration_snapshot', z3.Implies(expl, z3.And(
+        ee.n == nb, ne.n == nb, A.forall_idx(nb, lambda i: z3.And(
+            ee.at(i) >= 0, ee.at(i) <= pts.alen(i), ne.at(i) >= 0,
+            ne.at(i) <= ns.at(i))))))]
+
+
+def shell_view(V, i):
+    """(start, n_sample, log_l array) of shell i under the current
+    discard_exploration view"""
+    disc = z3.And(V.bool('self._discard_exploration'), V.bool('self.explored'))
+    start = z3.If(disc, S(V, 'shell_end_exp').at(i), z3.IntVal(0))
+    ns = S(V, 'shell_n_sample').at(i) - z3.If(
+        disc, S(V, 'shell_n_sample_exp').at(i), z3.IntVal(0))
+    ll_full = S(V, 'log_l').elem(i)
+    ll = Arr(ll_full.n - start, lambda j: ll_full.at(start + j), 'real')
+    return start, ns, ll
+
+
+def S1_at(V, i):
+    st = V.st
+    start, ns, ll = shell_view(V, i)
+    n = ll.n
+    b = S(V, 'bounds').at(i)
+    lv = LV(b, z3.Select(sstate(st), b))
+    ll2 = Arr(ll.n, lambda j: 2 * ll.at(j), 'real')
+    all_inf = A.forall_idx(n, lambda j: ll.at(j) == NEG_INF)
+    sn, slv, sll, sne = (S(V, 'shell_n').at(i), S(V, 'shell_log_v').at(i),
+                         S(V, 'shell_log_l').at(i), S(V, 'shell_n_eff').at(i))
+    nr = z3.ToReal(n)
+    lse1, lse2 = lse_of(st, ll), lse_of(st, ll2)
+    return [
+        ('S1_shell_n', sn == n),
+        ('S1_log_v', z3.Implies(n > 0, slv == lv + f_log(nr / z3.ToReal(ns)))),
+        ('S1_log_l', z3.Implies(n > 0, sll == lse1 - f_log(nr))),
+        ('S1_n_eff_all_zero_likelihood', z3.Implies(
+            z3.And(n > 0, all_inf), sne == nr)),
+        ('S1_n_eff_kish', z3.Implies(
+            z3.And(n > 0, z3.Not(all_inf)), sne == f_exp(2 * lse1 - lse2))),
+        ('S1_empty', z3.Implies(n == 0, z3.And(
+            slv == NEG_INF, sll == NAN, sne == 0))),
+    ]
+
+
+def inv_N(V):
+    """shell_n is the number of stored samples in the current view, never more
+    than the number of proposals (S2)"""
+    nb = S(V, 'bounds').n
+    i = A.qi('i')
+
+    def body(i):
+        start, ns, ll = shell_view(V, i)
+        return z3.And(S(V, 'shell_n').at(i) == ll.n, ll.n >= 0,
+                      S(V, 'shell_n').at(i) <= ns)
+    return [('S2_shell_n_counts_view', z3.ForAll([i], z3.Implies(
+        z3.And(i >= 0, i < nb), body(i))))] + inv_exp_arrays(V)
+
+
+def InvAll(V):    # noqa: F811
+    return (InvP(V) + inv_blobs(V) + inv_rows_aligned(V) + inv_config(V) +
+            inv_N(V))
